@@ -4,6 +4,7 @@ package main
 
 import (
 	"fmt"
+	"go/ast"
 	"os"
 	"go/token"
 	"go/types"
@@ -59,6 +60,27 @@ func findLoops(fn *ssa.Function) map[*ssa.BasicBlock]*loopInfo {
 	sort.Slice(hs, func(i, j int) bool { return loopPos(loops[hs[i]]) < loopPos(loops[hs[j]]) })
 	for i, h := range hs {
 		loops[h].number = i + 1
+	}
+	// lexical extent of each loop (a return statement inside a loop body is not part of the natural loop)
+	if syn := fn.Syntax(); syn != nil {
+		var stmts []ast.Node
+		ast.Inspect(syn, func(n ast.Node) bool {
+			switch n.(type) {
+			case *ast.FuncLit:
+				if n != syn {
+					return false
+				}
+			case *ast.ForStmt, *ast.RangeStmt:
+				stmts = append(stmts, n)
+			}
+			return true
+		})
+		sort.SliceStable(stmts, func(i, j int) bool { return stmts[i].Pos() < stmts[j].Pos() })
+		if len(stmts) == len(hs) {
+			for i, h := range hs {
+				loops[h].lexStart, loops[h].lexEnd = stmts[i].Pos(), stmts[i].End()
+			}
+		}
 	}
 	return loops
 }
@@ -224,6 +246,27 @@ func (ex *Exec) mergeValues(vals []Value, guards []string, hint string) Value {
 		return vals[0]
 	}
 	var terms []Term
+	allFn := true
+	for _, v := range vals {
+		switch v.(type) {
+		case Closure, FnRef, MergedFn:
+		default:
+			allFn = false
+		}
+	}
+	if allFn {
+		// different function values meet at a join: remember the alternatives; a call havocs what any may write
+		var mf MergedFn
+		for _, v := range vals {
+			switch f := v.(type) {
+			case MergedFn:
+				mf.Alts = append(mf.Alts, f.Alts...)
+			default:
+				mf.Alts = append(mf.Alts, v)
+			}
+		}
+		return mf
+	}
 	for _, v := range vals {
 		t, ok := v.(Term)
 		if !ok {
@@ -395,6 +438,10 @@ func (ex *Exec) loopBack(fr *Frame, li *loopInfo, st *State, from *ssa.BasicBloc
 	for _, inv := range li.spec.Invariants {
 		g := ex.specBool(fr, st, inv)
 		ex.obligeNamed(st, fmt.Sprintf("%s.step.%s@b%d", name, invNo(inv), from.Index), "loop.step", g, "loop invariant preserved: "+inv.Text, pos)
+	}
+	for _, ab := range li.spec.AtBack {
+		g := ex.specBool(fr, st, ab)
+		ex.obligeNamed(st, fmt.Sprintf("%s.%s@b%d", name, invNo(ab), from.Index), "loop.back", g, "holds whenever the loop continues: "+ab.Text, pos)
 	}
 	if li.spec.Variant != nil {
 		v := ex.specTerm(fr, st, li.spec.Variant)
